@@ -131,7 +131,11 @@ def apply_constraint(
     if constraint_name is None or constraint_name == "":
         return scales
     constraint = getattr(sys.modules[__name__], constraint_name, None)
-    if constraint is None:
+    if (
+        constraint is None
+        or constraint_name not in __all__
+        or constraint_name == "apply_constraint"
+    ):
         raise ValueError(
             f"Constraint: {constraint_name} is not a valid constraint (see"
             " unit_scaling.constraints for available options)."
